@@ -51,6 +51,75 @@ def conflict_clauses(ctx, chk, rule, modules, key_prefix, why):
     return n
 
 
+def parents_not_deleted(ctx, chk, rule, modules, children, key_prefix, why):
+    """Rows that `children` tables reference by foreign key (transitively) are not deleted, nor their key columns updated,
+    by a statement of `modules`, unless (a) the same function deletes every referencing child table before it, or
+    (b) `PRAGMA foreign_keys = 1` is executed in the same function before it.  The command-line connections of every step
+    but `load` run with SQLite's default (foreign keys not enforced), so a DELETE of a parent succeeds and leaves the
+    children pointing at nothing.  Zero instances on the pinned tree; positive control."""
+    sch = ctx.schema
+
+    def ancestors(tabs):
+        out, stack = set(), list(tabs)
+        while stack:
+            t = stack.pop()
+            td = sch.tables.get(t)
+            if td is None:
+                continue
+            for cols, rt, rcols in td.fks:
+                if rt not in out and rt not in tabs:
+                    out.add(rt)
+                    stack.append(rt)
+        return out
+
+    def referencing(parent):
+        return {t.name for t in sch.tables.values() if any(rt == parent for _c, rt, _r in t.fks)}
+
+    prot = ancestors(set(children))
+    n = 0
+    for modname in modules:
+        m = ctx.repo.modules.get(modname)
+        if m is None:
+            continue
+        for q, f in sorted(m.functions.items()):
+            sites = sorted(ctx.sites_in(f), key=lambda s_: s_.line)
+            deleted_before = set()
+            pragma_on = False
+            for s in sites:
+                for st in s.statements:
+                    n += 1
+                    if st.kind == "pragma" and "foreign_keys" in (s.sql_text or "").lower() and any(v in (s.sql_text or "").lower().replace(" ", "") for v in ("=1", "=on", "=true")):
+                        pragma_on = True
+                    if st.kind == "delete":
+                        t = st.table
+                        if t in prot and not pragma_on:
+                            kids = {k for k in referencing(t) if k in set(children) | prot}
+                            left = sorted(k for k in kids if k not in deleted_before and (k in children or k in prot))
+                            # children that are themselves emptied earlier in this function are gone already
+                            curve_left = [k for k in left if k in children or any(c in children for c in _descendants(sch, k))]
+                            if curve_left:
+                                chk.ob(rule, False, where_of(f, s.call), "DELETE FROM %s while rows of %s may reference it, on a connection where foreign keys are not enforced" % (t, ", ".join(curve_left)),
+                                       "rows that a master-curve table references are never removed under it: foreign keys switched on for this connection, or the referencing rows removed first",
+                                       key="%s|parent-deleted|%s|%s" % (key_prefix, q, t), why=why, local=True)
+                        deleted_before.add(t)
+    chk.count("%s statements read for deletes of referenced rows" % key_prefix, n)
+    # positive control: zeta_interval is an ancestor of rising_interval in the schema
+    if "zeta_interval" not in ancestors({"rising_interval", "recession_interval"}):
+        chk.errors.append("%s positive control (foreign-key ancestors of the curve tables) did not match" % rule)
+    return n
+
+
+def _descendants(sch, parent):
+    out, stack = set(), [parent]
+    while stack:
+        p = stack.pop()
+        for t in sch.tables.values():
+            if t.name not in out and any(rt == p for _c, rt, _r in t.fks):
+                out.add(t.name)
+                stack.append(t.name)
+    return out
+
+
 def _integer_only(ctx, sel, e):
     """Every column under e resolves to an INTEGER column of a base table."""
     cols = [x for x in walk_expr(e) if x[0] == "col"]
